@@ -30,6 +30,7 @@ RESERVED_WORDS = ('(', ')', '[', ']', '{', '}', '=', '|', ':', '!', '&&', '||')
 PHASES = ('setup', 'before-assert', 'assert', 'cleanup')
 
 PROBE_ARGV0 = ['{PY}', '{PROBE}']  # + '{OBS}/<id>'
+ACT_HOME_MARK = 'in act-home:'
 
 
 # ---------------------------------------------------------------------------
@@ -94,7 +95,9 @@ class Model:
     def __init__(self, case_with_ids, home='{HOME}', sds='{SDS}'):
         """home, sds: the real directories when known (transformations may act on texts that contain paths)"""
         self.case = case_with_ids
-        self.rel_root = {'home': home, 'act-home': home, 'default': home, 'act': sds + '/act', 'tmp': sds + '/tmp'}
+        # `act-home = DIR` of [conf] (relative to the location of the test case file)
+        act_home = home + '/' + case_with_ids['act_home'] if case_with_ids.get('act_home') else home
+        self.rel_root = {'home': home, 'act-home': act_home, 'default': home, 'act': sds + '/act', 'tmp': sds + '/tmp'}
         self.syms = {d['n']: d for d in self.case.get('syms', [])}
         self.tsyms = {d['n']: d for d in self.case.get('tsyms', [])}
         self.pgms = {d['n']: d for d in self.case.get('pgms', [])}
@@ -172,9 +175,18 @@ class Model:
                 raise ValueError(last['k'])
         return out
 
+    def file_text(self, rel, name):
+        """contents of a data file: the copies in a separate act-home directory are marked"""
+        text = self.files[name]
+        if rel == 'act-home' and self.case.get('act_home'):
+            return ACT_HOME_MARK + text
+        return text
+
     # -- transformers ---------------------------------------------------------
-    def apply_transformer(self, tr, text):
-        """-> text or None (hard error)"""
+    def apply_transformer(self, tr, text, raw_program_output=False):
+        """-> text or None (hard error)
+        raw_program_output: the text is the output of a program, as it comes from the process (only of interest
+        to the defect model KF-C10-1: such a text is marked as 'pgm' when it becomes part of a stdin)"""
         for prim in tr or []:
             op = prim[0]
             if op == 'upper':
@@ -193,13 +205,16 @@ class Model:
                 pass
             elif op == 'run':
                 # how often a transformation is evaluated is not specified (at least once when the result is used)
-                r = self.run_program(prim[1], consume='stdout', extra_parts=[{'text': text, 'pgm': False}],
-                                     count='1+')
+                r = self.run_program(prim[1], consume='stdout',
+                                     extra_parts=[{'text': text, 'pgm': raw_program_output}], count='1+',
+                                     exit_relevant=not prim[2])
                 if r.get('hard') or (r['exit'] != 0 and not prim[2]):
                     return None
                 text = r['stdout']
             else:
                 raise ValueError(op)
+            if op != 'id':
+                raw_program_output = False
         return text
 
     # -- text sources ---------------------------------------------------------
@@ -212,7 +227,7 @@ class Model:
         elif k == 'here':
             text = ''.join(self.pieces_value(l) + '\n' for l in ts['lines'])
         elif k == 'file':
-            text = self.files[ts['name']]
+            text = self.file_text(ts.get('rel', 'default'), ts['name'])
         elif k == 'ssym':
             text = self.sym_as_string(ts['n'])
         elif k == 'tsym':
@@ -222,7 +237,7 @@ class Model:
             text, pgm = r['text'], r['pgm']
         elif k == 'pgm':
             # "executed once" is only promised for `-from`; a text source is produced at least once when used
-            r = self.run_program(ts['p'], consume=ts['chan'], count='1+')
+            r = self.run_program(ts['p'], consume=ts['chan'], count='1+', exit_relevant=not ts.get('ignore'))
             if r.get('hard') or (r['exit'] != 0 and not ts.get('ignore')):
                 return None
             text = r[ts['chan']]
@@ -293,11 +308,13 @@ class Model:
             words.append(''.join(self.pieces_value(pieces, substitute) for style, pieces in w))
         return words
 
-    def run_program(self, p, consume, extra_parts=(), late_parts=None, count='1'):
+    def run_program(self, p, consume, extra_parts=(), late_parts=None, count='1', exit_relevant=False):
         """Models one execution of a PROGRAM in the current directory.
         consume: 'stdout' | 'stderr' | None - the channel the program's transformations apply to.
         extra_parts: stdin parts appended after the program's own.
         late_parts: callable giving more parts (evaluated after the program's own).
+        exit_relevant: a non-zero exit code makes the result an error (whether the transformations of the output
+        are evaluated then is not specified).
         -> dict(hard=True) | dict(exit, stdout, stderr)"""
         base, layers = self.flatten(p)
         parts = []
@@ -330,21 +347,25 @@ class Model:
         cfg = self.probes[pid]
         res = {'exit': cfg.get('exit', 0), 'stdout': cfg.get('stdout', ''), 'stderr': cfg.get('stderr', '')}
         chan = consume or 'stdout'
-        if consume is None:
+        optional_tr = consume is None or (exit_relevant and res['exit'] != 0)
+        if optional_tr:
             self._optional += 1
         try:
             text = res[chan]
+            raw = True
             for l in layers:
-                text = self.apply_transformer(l.get('tr'), text)
+                text = self.apply_transformer(l.get('tr'), text, raw_program_output=raw)
+                if any(prim[0] != 'id' for prim in l.get('tr') or []):
+                    raw = False
                 if text is None:
-                    if consume is None:
+                    if optional_tr:
                         # the output is not used: whether the transformation is evaluated at all is not specified
                         return res
                     return hard()
             if consume is not None:
                 res[chan] = text
         finally:
-            if consume is None:
+            if optional_tr:
                 self._optional -= 1
         return res
 
@@ -438,14 +459,14 @@ class Model:
             return bad if self.probes[ins['probe']].get('exit', 0) != 0 else 'pass'
         if k == 'filefrom':
             # file PATH = (-stdout-from|-stderr-from) [-ignore-exit-code] PROGRAM   (`help syntax TEXT-SOURCE`)
-            r = self.run_program(ins['p'], consume=ins['chan'], count='1+')
+            r = self.run_program(ins['p'], consume=ins['chan'], count='1+', exit_relevant=not ins.get('ignore'))
             if r.get('hard') or (r['exit'] != 0 and not ins.get('ignore')):
                 return 'hard'
             self.out_files[self.path_value(ins['rel'], ins['name'])] = r[ins['chan']]
             return 'pass'
         if k == 'from':
             what = ins['what']
-            r = self.run_program(ins['p'], consume=None if what == 'exit' else what)
+            r = self.run_program(ins['p'], consume=None if what == 'exit' else what, exit_relevant=True)
             if r.get('hard'):
                 return 'hard'
             if what != 'exit' and r['exit'] != 0:
@@ -474,7 +495,9 @@ class Model:
         pid = act['probe']
         if act['k'] == 'file':
             if act['variant'] == 'probe-is-interpreter':
-                argv = (self.args_value(act['iargs']) + [self.path_value(act['rel'], act['name'])]
+                # `help actor file`: FILE - default relativity is the act-home directory
+                rel = 'act-home' if act['rel'] == 'default' else act['rel']
+                argv = (self.args_value(act['iargs']) + [self.path_value(rel, act['name'])]
                         + self.args_value(act['args'], act.get('last')))
             else:
                 # interpreter = python, the source file starts the probe: FILE OUT ARGS...
